@@ -119,6 +119,8 @@ class _CmOps:
         return None  # attribute stores (e.g. __traceback__) are irrelevant to the decision
 
     def truth(self, v, env):
+        if isinstance(v, tuple) and v[:1] == ("exc",) and v == self.passed:
+            return UNKNOWN  # the caller's exception instance may be falsy (__bool__ / __len__): never branch on it
         if isinstance(v, tuple) and v[:1] in (("exc",), ("cls",)):
             return True
         if v == "YIELDED":
